@@ -267,7 +267,10 @@ class Encoder:
             if c.has_default and values_equal(v[c.name], c.default):
                 return False
             return True
-        nextra = self.extra.get(id(rt), 0)
+        # unknown additions of a later version: a count (all present) or a presence pattern like (0, 1, 0, 1)
+        xpat = self.extra.get(id(rt), 0)
+        xpat = [1] * xpat if isinstance(xpat, int) else list(xpat)
+        nextra = len(xpat) if any(xpat) else 0
         if rt.ext is not None:
             anyadd = any(present(c) for c in adds) or nextra > 0
             b.put(1 if anyadd else 0, 1)
@@ -294,13 +297,15 @@ class Encoder:
             for c in adds:
                 b.put(1 if present(c) else 0, 1)
             for i in range(nextra):
-                b.put(1, 1)
+                b.put(1 if xpat[i] else 0, 1)
             for c in adds:
                 if present(c):
                     inner = Bits()
                     self.enc(inner, c.type, v[c.name])
                     put_open(b, inner)
             for i in range(nextra):
+                if not xpat[i]:
+                    continue
                 inner = Bits()
                 inner.put_bytes(bytes([0xA5, i, 0x5A][: 1 + i % 3]))
                 put_open(b, inner)
